@@ -682,33 +682,42 @@ func runC01(r *Run) {
 		r.atLeast("use ∧ root tests in Route.match", n, 1)
 	})
 
-	r.rule("R11", "position 0 is a position: rebaseIndexRoute leaves the cursor alone only while routing has not started — on the tests `route == nil`, `indexRoute < 0`, `methodInt < 0`; a comparison of the cursor that also holds for 0 (`<= 0`) skips the translation exactly when the handler that rewrote the path is the first route of its bucket, and the scan continues at index 1 of a bucket whose index 0 may be an earlier-registered route of the new path (E1: the relation on the returning edge implies a negative cursor)", func() {
+	r.rule("R11", "position 0 is a position: rebaseIndexRoute leaves the cursor alone only while routing has not started — on the tests `route == nil`, `indexRoute < 0`, `methodInt < 0`; every comparison of the cursor with a constant in rebaseIndexRoute (and the helpers it asks) separates the negative values from the positions (`< 0`, `>= 0`, `<= -1`, `> -1`) — a test that also holds for 0 (`<= 0`) skips the translation exactly when the handler that rewrote the path is the first route of its bucket, and the scan continues at index 1 of a bucket whose index 0 may be an earlier-registered route of the new path (E1: the relation separates at the sign)", func() {
 		f := r.Fn("", "(*DefaultCtx).rebaseIndexRoute")
 		n := 0
-		for _, br := range branchesInOne(f) {
-			if !loadOfField(br.Info.Root, "DefaultCtx.indexRoute") || br.Info.Const == nil {
-				continue
-			}
-			k, ok := constInt(br.Info.Const)
-			if !ok {
-				continue
-			}
-			for sl := 0; sl < 2; sl++ {
-				tb := br.If.Block().Succs[sl]
-				if len(tb.Instrs) != 1 || !isReturn(tb.Instrs[0]) {
-					continue
+		for _, g := range append([]*ssa.Function{f}, helpersOf(f)...) {
+			for _, b := range g.Blocks {
+				for _, in := range b.Instrs {
+					bo, ok := in.(*ssa.BinOp)
+					if !ok {
+						continue
+					}
+					op := bo.Op
+					var k int64
+					var isK bool
+					switch {
+					case loadOfField(bo.X, "DefaultCtx.indexRoute"):
+						k, isK = constInt(asConst(bo.Y))
+					case loadOfField(bo.Y, "DefaultCtx.indexRoute"):
+						k, isK = constInt(asConst(bo.X))
+						op = flipOp(op)
+					}
+					if !isK {
+						continue
+					}
+					switch op {
+					case token.LSS, token.LEQ, token.GTR, token.GEQ, token.EQL, token.NEQ:
+					default:
+						continue
+					}
+					n++
+					atSign := (op == token.LSS && k == 0) || (op == token.GEQ && k == 0) || (op == token.LEQ && k == -1) || (op == token.GTR && k == -1)
+					r.check(atSign, "rebaseIndexRoute:cursor-tests-separate-at-the-sign", r.pos(in), "the cursor is compared at the boundary between `not started` (-1) and the positions (0…)",
+						fmt.Sprintf("rebaseIndexRoute decides on `indexRoute %s %d`, which does not separate `routing has not started` (negative) from the positions: for a cursor of 0 — the handler that calls Path(override) is the first route of its bucket — the cursor is not translated and the scan goes on at index 1 of the new bucket: an endpoint registered earlier answers (\"early param\" instead of \"late x\") or the rewriting middleware runs twice", op, k))
 				}
-				n++
-				op := br.Info.Op
-				if br.slotWhenRel(true) != sl {
-					op = negOp(op)
-				}
-				neg := (op == token.LSS && k <= 0) || (op == token.LEQ && k <= -1) || (op == token.EQL && k < 0)
-				r.check(neg, "rebaseIndexRoute:untouched-only-for-a-negative-cursor", r.pos(br.If), "the early return is taken for a negative cursor only",
-					fmt.Sprintf("rebaseIndexRoute returns without translating the cursor on `indexRoute %s %d`, which holds for a cursor that is a position (0): when the handler that calls Path(override) is the first route of its bucket the scan goes on at index 1 of the new bucket — an endpoint registered earlier answers (\"early param\" instead of \"late x\") or the rewriting middleware runs twice", op, k))
 			}
 		}
-		r.atLeast("early returns on the cursor in rebaseIndexRoute", n, 1)
+		r.atLeast("comparisons of the cursor with a constant in rebaseIndexRoute", n, 1)
 	})
 
 	r.rule("R8", "cursor/bucket coherence: every function that assigns treePathHash or methodInt re-bases indexRoute on the same path, or all its callers do (E4c, belief rule)", func() {
